@@ -981,6 +981,117 @@ def run_s3_chunk(payload: Tuple) -> Dict[str, Any]:
     return rep.part()
 
 
+# ---------------------------------------------------------------------------
+# a path component that is re-pointed BETWEEN two calls on one handle
+# ---------------------------------------------------------------------------
+REPOINT_ENTRIES = ("read_file", "open_file", "get_size", "exists", "write_file", "delete_file", "list_files",
+                   "get_arrow_path", "open_parquet_source", "write_data_file", "read_data_file")
+
+
+def repoint_worker(payload: Tuple) -> Dict[str, Any]:
+    """For every entry point: the call is made once while `data/sub` is an ordinary directory inside the root, then
+    `data/sub` is replaced by a symlink to a directory outside the root, and the SAME handle is asked again with the
+    same string.  Nothing a handle remembers about an earlier resolution may let the second call through."""
+    import pyarrow as pa
+    import pyarrow.parquet as pq
+
+    from datashard import create_table, load_table
+    from dsmc.tables import fresh_dir, row, schema, use_local
+
+    tier, seed = payload
+    rep = Report(PROP, tier, seed, "exploration")
+    use_local()
+    for entry in REPOINT_ENTRIES:
+        for mode in MODES:
+            ENV.reset(seed)
+            base = os.path.realpath(fresh_dir(f"c17-repoint-{entry}-{mode}"))
+            root = os.path.join(base, "a", "root")
+            out_dir = os.path.join(base, "a", "outside", "sub")
+            os.makedirs(os.path.dirname(root))
+            t = create_table(root, schema())
+            t.append_records([row(1)])
+            os.makedirs(os.path.join(root, "data", "sub"))
+            os.makedirs(out_dir)
+            inside_f, outside_f = os.path.join(root, "data", "sub", "f.parquet"), os.path.join(out_dir, "f.parquet")
+            pq.write_table(pa.table({"a": pa.array([7], pa.int64()), "s": ["in"]}), inside_f)
+            pq.write_table(pa.table({"a": pa.array([666], pa.int64()), "s": ["OUTSIDE"]}), outside_f)
+            secret = open(outside_f, "rb").read()
+            if mode == "via_symlink":
+                os.symlink("root", os.path.join(base, "a", "link"))
+            h = load_table(root if mode == "direct" else os.path.join(base, "a", "link"))
+            st, dfm = h.storage, h.file_manager.data_file_manager
+            rel = "data/sub/f.parquet"
+
+            def call() -> Any:
+                if entry in ("read_file", "get_size", "exists", "delete_file"):
+                    return getattr(st, entry)(rel)
+                if entry == "list_files":
+                    return sorted(st.list_files("data/sub"))
+                if entry == "open_file":
+                    f = st.open_file(rel)
+                    try:
+                        return f.read()
+                    finally:
+                        _close(f)
+                if entry == "write_file":
+                    return st.write_file(rel, b"W")
+                if entry == "get_arrow_path":
+                    return dfm._get_arrow_path(rel)
+                if entry == "open_parquet_source":
+                    src = dfm.open_parquet_source(rel)
+                    try:
+                        return pq.read_table(src).to_pylist()
+                    finally:
+                        _close(src)
+                if entry == "read_data_file":
+                    return dfm.read_data_file(rel).to_pylist()
+                if entry == "write_data_file":
+                    return dfm.write_data_file(rel, [{"a": 1, "s": "w"}], schema()).file_path
+                raise HarnessError(entry)
+
+            try:
+                call()  # benign layout: whatever it answers, the handle has now seen this path
+            except HarnessError:
+                raise
+            except Exception:
+                pass
+            if not os.path.isdir(os.path.join(root, "data", "sub")):
+                raise HarnessError("benign layout damaged by the first call")
+            shutil.rmtree(os.path.join(root, "data", "sub_real"), ignore_errors=True)
+            os.rename(os.path.join(root, "data", "sub"), os.path.join(root, "data", "sub_real"))
+            os.symlink("../../outside/sub", os.path.join(root, "data", "sub"))
+            try:
+                out: Any = ("ok", call())
+            except HarnessError:
+                raise
+            except Exception as e:  # noqa
+                out = ("raise", type(e).__name__)
+            rep.add("evaluations")
+            rep.add("repointed_component_cases")
+            rep.nontrivial(("repoint", entry, mode))
+            probs = []
+            now = open(outside_f, "rb").read() if os.path.exists(outside_f) else None
+            if now != secret or sorted(os.listdir(out_dir)) != ["f.parquet"]:
+                probs.append("a file outside the root was written / deleted / created")
+            if out[0] == "ok":
+                r = out[1]
+                leaked = (r == secret or (isinstance(r, list) and any(isinstance(x, dict) and x.get("a") == 666 for x in r))
+                          or (entry == "list_files" and r) or (entry == "get_size" and r == len(secret))
+                          or (entry == "exists" and r is True))
+                if entry == "get_arrow_path":
+                    leaked = not (os.path.realpath(str(r)) + "/").startswith(os.path.realpath(root) + "/")
+                if leaked:
+                    probs.append("the call answered from the directory outside the root")
+                elif entry not in ("exists",):
+                    probs.append("an escaping path was accepted without an error")
+            if probs:
+                rep.violation({"entry": entry, "root": mode, "path_class": "component_repointed_between_calls",
+                               "access": "any", "problem": probs[0][:60]},
+                              {"path": rel, "outcome": repr(out)[:200], "problems": probs})
+            shutil.rmtree(base, ignore_errors=True)
+    return rep.part()
+
+
 def run(tier: str, seed: int) -> Report:
     rep = Report(PROP, tier, seed, "exploration")
     npaths = {e: n_paths(depth_of(e, tier)) for e in ENTRIES}
@@ -998,7 +1109,9 @@ def run(tier: str, seed: int) -> Report:
     s3_payloads = [("s3", e, pfx, tier, seed, None) for e in S3_ENTRIES for pfx in S3_PREFIXES]
     for part in pmap("checks.c17", "run_s3_chunk", s3_payloads):
         rep.merge(part)
-    n_s3 = len(s3_paths(3 if tier == "quick" else 4)) * len(s3_payloads)
+    for part in pmap("checks.c17", "repoint_worker", [(tier, seed)]):
+        rep.merge(part)
+    n_s3 = len(s3_paths(3 if tier == "quick" else 4)) * len(s3_payloads) + len(REPOINT_ENTRIES) * len(MODES)
     rep.cov["s3_path_strings"] = len(s3_paths(3 if tier == "quick" else 4))
     rep.cov["s3_entry_points"] = list(S3_ENTRIES)
     expect = sum(npaths.values()) * len(MODES) + n_s3
